@@ -235,6 +235,15 @@ static std::string run_line(const std::string& line) {
     else x.generalized_affine_preimage(Variable(var), rs, lin(a, b), d, m);
     return "ok";
   }
+  if (op == "gimagel" || op == "gpreimagel") {
+    std::string rel; mpz_class m, lb, rb; zvec la, ra;
+    in >> rel; read_z(in, m); read_z(in, lb); read_vec(in, n, la); read_z(in, rb); read_vec(in, n, ra);
+    Relation_Symbol rs = rel == "eq" ? EQUAL : rel == "ge" ? GREATER_OR_EQUAL : rel == "le" ? LESS_OR_EQUAL
+                        : rel == "gt" ? GREATER_THAN : LESS_THAN;
+    if (op == "gimagel") x.generalized_affine_image(lin(la, lb), rs, lin(ra, rb), m);
+    else x.generalized_affine_preimage(lin(la, lb), rs, lin(ra, rb), m);
+    return "ok";
+  }
   if (op == "relgen") {
     Grid_Generator g = read_gen(in, n);
     Poly_Gen_Relation rel = x.relation_with(g);
